@@ -14,7 +14,7 @@ python3 - "$@" <<'PY'
 import json,glob,subprocess,re,os,sys
 res={}
 only=sys.argv[1:]
-try: res=json.load(open('/verif/seeded/results.json')) if only else {}
+try: res=json.load(open('/verif/seeded/results.json')) if (only and not os.environ.get('RESULTS_OUT')) else {}
 except Exception: res={}
 for d in sorted(glob.glob('/verif/seeded/*/meta.json')):
     m=json.load(open(d)); i=m['id']
@@ -29,5 +29,5 @@ for d in sorted(glob.glob('/verif/seeded/*/meta.json')):
             if o not in obs: obs.append(o)
     res[i]={'checked':props,'violations':len(obs),'obligations':obs}
     print(i,props,'violations=%d'%len(obs),'; '.join(obs[:2])[:200])
-json.dump(res,open('/verif/seeded/results.json','w'),indent=1)
+json.dump(res,open(os.environ.get('RESULTS_OUT','/verif/seeded/results.json'),'w'),indent=1)
 PY
